@@ -9,6 +9,8 @@ def T(id, old, new, file="eqsig/fns/average.py", **kw):
 G = "eqsig/fns/generic.py"
 D = "eqsig/design_spectra.py"
 VARIANTS = [
+    B("i2d-difference-in-table-dtype", "    s1 = 1 - s0\n    return s1[:, np.newaxis] * f0 + s0[:, np.newaxis] * f1\n", "    return f0 + s0[:, np.newaxis] * (f1 - f0)\n", "R-I2D", file=G),
+    T("i2d-difference-after-float-cast", "    s1 = 1 - s0\n    return s1[:, np.newaxis] * f0 + s0[:, np.newaxis] * f1\n", "    return f0 + s0[:, np.newaxis] * (f1.astype(float) - f0)\n", file=G),
     B("step-mean-regression", "(npts - pre_n) * np.abs(pre_mean) ** pow\n", "(npts - pre_n) * pre_mean ** pow\n", "R-STEP-PARITY"),
     B("step-no-abs-dev", "    err_post = np.sum(np.abs(post_a - post_mean[:, np.newaxis]) ** pow, axis=1)", "    err_post = np.sum((post_a - post_mean[:, np.newaxis]) ** pow, axis=1)", "R-STEP-PARITY"),
     B("step-last-no-abs", "    err[-1] = np.sum(np.abs(values - np.mean(values)) ** pow)\n", "    err[-1] = np.sum((values - np.mean(values)) ** pow)\n", "R-STEP-PARITY"),
